@@ -2,8 +2,8 @@ package transports
 
 import (
 	"bytes"
-	"compress/flate"
 	"compress/gzip"
+	"compress/zlib"
 	"io"
 	"net/http"
 	"strconv"
@@ -392,7 +392,8 @@ func (p *polling) compress(data types.BufferInterface, encoding string) (types.B
 			return nil, err
 		}
 	case "deflate":
-		fl, err := flate.NewWriter(buf, flate.DefaultCompression)
+		// the "deflate" content coding is the zlib format (RFC 9110), not a raw DEFLATE stream
+		fl, err := zlib.NewWriterLevel(buf, zlib.DefaultCompression)
 		if err != nil {
 			return nil, err
 		}
